@@ -147,8 +147,14 @@ def throttle_case(sc: dict[str, Any]) -> dict[str, Any]:
         others: list[dict[str, Any]] = []
         state = {'b_arrived': []}
 
-        def when(name, **_):
-            if name == 'a':
+        twin = None
+        if sc.get('twin'):      # the other object is A's namesake of another kind (same plural, another group, same namespace and name)
+            from sim.fakek8s import ResDef
+            from vf.handling import TWIN_GROUP
+            twin = sim.srv.add_resource(ResDef(TWIN_GROUP, VERSION, PLURAL, 'Thing', namespaced=True))
+
+        def when(name, resource, **_):
+            if name == 'a' and resource.group == GROUP:
                 bad = errs.pop(0) if errs else False
                 runs.append({'t': int(sim.now), 'ok': not bad})
                 if bad and sc['mode'] == 'when':
@@ -160,13 +166,16 @@ def throttle_case(sc: dict[str, Any]) -> dict[str, Any]:
         n_patch = {'n': 0}
 
         async def ev(name, spec, **_):
-            if name == 'a' and sc['mode'] == 'patch':
+            if name == 'a' and sc['mode'] == 'patch' and _['resource'].group == GROUP:
                 return {'seen': spec.get('x')}        # every change of A makes the framework send a PATCH
             return None
         kopf.on.event(GROUP, VERSION, PLURAL, registry=reg, id='ev', when=when)(ev)
+        if twin is not None:
+            kopf.on.event(twin.group, VERSION, PLURAL, registry=reg, id='ev', when=when)(ev)
+        bname, bkw = ('a', {'res': twin}) if twin is not None else ('b', {})
 
         def policy(req):
-            if req.route.get('kind') == 'patch' and req.route.get('name') == 'a' and state.get('fail_patch'):
+            if req.route.get('kind') == 'patch' and req.route.get('name') == 'a' and req.route.get('group') == GROUP and state.get('fail_patch'):
                 return Plan(fault=Fault('status', code=500))
             return None
         sim.srv.policy = policy
@@ -174,7 +183,7 @@ def throttle_case(sc: dict[str, Any]) -> dict[str, Any]:
         op = sim.operator('op1', reg, settings)
         gone_at = sc.get('a_gone_at')
         sim.world.at(1, lambda: sim.create('a', {'x': 0}, **({'metadata': {'finalizers': ['other/x']}} if gone_at else {})), 1)
-        sim.world.at(1, lambda: (state['b_arrived'].append(1), sim.create('b', {'x': 0})), 1)
+        sim.world.at(1, lambda: (state['b_arrived'].append(1), sim.create(bname, {'x': 0}, **bkw)), 1)
         if gone_at:      # in the middle of A's error pause A is marked for deletion and released by its (foreign) finalizer at once:
             def gone():  # two events of A, one right behind the other -- they wait the pause out like any other event
                 sim.delete('a')
@@ -185,7 +194,8 @@ def throttle_case(sc: dict[str, Any]) -> dict[str, Any]:
         for t in sc['a_edits']:
             sim.world.at(t, lambda: (x.__setitem__('a', x['a'] + 1), sim.set_spec('a', x=x['a'])), 1)
         for t in sc['b_edits']:
-            sim.world.at(t, lambda t=t: (state['b_arrived'].append(t), x.__setitem__('b', x['b'] + 1), sim.set_spec('b', x=x['b'])), 1)
+            sim.world.at(t, lambda t=t: (state['b_arrived'].append(t), x.__setitem__('b', x['b'] + 1),
+                                         sim.edit(bname, lambda o: o.setdefault('spec', {}).update(x=x['b']), **bkw)), 1)
         sim.run(sc['end'])
         alive = not op.done
         # recovery: once the error word is over, one more edit of A must be processed normally
@@ -213,6 +223,8 @@ def throttle_scenarios(seed: int, n: int) -> list[dict[str, Any]]:
         b_edits = sorted(rnd.sample(range(2, 40), rnd.randint(1, 5)))
         out.append({'id': f'throttle-{seed}-{i}', 'mode': rnd.choice(['when', 'when', 'patch']), 'delays': delays, 'errors': errors,
                     'a_edits': a_edits, 'b_edits': b_edits, 'end': 60})
+        if i % 3 == 0:      # the bystander is A's namesake of another kind: what is kept per object is kept per object, not per name
+            out[-1]['twin'] = True
         if i % 4 == 1:      # the failing cycle takes time before its error escalates (the PATCH is retried first): the pause counts from the failure
             r3 = random.Random(f'throttle-slow-{seed}-{i}')
             out[-1].update(mode='patch', ebackoffs=r3.choice([[1], [1, 1], [2]]))
